@@ -95,8 +95,8 @@ PROPS = {
     "C02": dict(units=["worker"], level="proof", assumptions=WORKER_ASSUME + ["wall-clock accuracy of tokio timers is not decided; 'arrive within the window' = received by the worker before the return"],
                 claim="throttle_collect proved by Verus: a non-urgent batch is not returned before first-event time + throttle, an urgent event is the last one received and is never filtered, the recv timeout never exceeds the rest of the window",
                 trusted="stand-ins in prelude/worker_env.rs (virtual clock: only blocking calls let time pass)"),
-    "C15": dict(units=["worker", "errhook", "sources"], level="proof", assumptions=WORKER_ASSUME,
-                claim="throttle_collect proved by Verus: every filter error is sent to the error channel exactly once, in order, the event is not batched and collection continues; only a closed error channel is critical. error_hook / ErrorHook::{handle_crit,critical,elevate} proved: each received error handled exactly once, a raised critical is never ignored",
+    "C15": dict(units=["worker", "errhook", "sources", "fswatch"], level="proof", assumptions=WORKER_ASSUME + ["watch/unwatch failures (unit fswatch): the notify watcher is an abstract map whose calls may fail arbitrarily; notify_multi_path_errors is a stand-in yielding one runtime error per path the notify error names (at least one)"],
+                claim="throttle_collect proved by Verus: every filter error is sent to the error channel exactly once, in order, the event is not batched and collection continues; only a closed error channel is critical. fs::worker proved: each failed watch/unwatch call is sent to the error channel once per named path, the other paths are still processed and the worker keeps running. error_hook / ErrorHook::{handle_crit,critical,elevate} proved: each received error handled exactly once, a raised critical is never ignored",
                 trusted="stand-ins in prelude/worker_env.rs, prelude/errhook_env.rs (error channel, OnceLock/Arc cell with ghost owner count, arbitrary error handler); Arc drops are not modelled (owner count at the time of handle_crit)"),
     "C18": dict(units=["command", "task"], level="proof",
                 assumptions=["tokio::process::Command passes argv byte for byte to execvp; process-wrap wrappers (KillOnDrop, ProcessSession, ProcessGroup::leader, ResetSigmask) do what their names say",
@@ -122,6 +122,15 @@ PROPS = {
                              "filter files' I/O (read_filter_file) not decided"],
                 claim="tail of dirs::ignores, head of WatchexecFilterer::new and head of FilteringArgs::normalise proved by Verus with all six flags symbolic: explicit --ignore-file entries always reach the filterer; each flag removes exactly the discovered sources it names; --ignore-nothing = the five flags",
                 trusted="stand-ins in prelude/clifilter_env.rs (Vec/iterator idioms, abstract paths)"),
+    "C13": dict(units=["fswatch"], level="proof",
+                assumptions=["the notify watcher is a map path -> recursion mode: watch() inserts/overwrites, unwatch() removes, either may fail arbitrarily leaving the map unchanged; Watcher::create yields an empty watcher of the requested kind (real notify back ends, recursive sub-watches, inotify auto-removal on delete: not decided; replayed on the real library by replay/lib scenarios)",
+                             "a configured path set names each path once (distinct_paths): with the same path configured in both modes no registration can equal the configuration",
+                             "the configuration read by one iteration (pathset.get twice, file_watcher.get) does not change during it; a change made meanwhile is applied by the next iteration, whose start depends on ConfigWatched::next/Notify wake-ups: 'no lost wake-up' (tokio Notify, Changeable's RwLock, reconfiguration from inside handlers, deadlock freedom) is concurrency outside what contracts on this function can express: NOT decided",
+                             "convergence is claimed per iteration in which no watch/unwatch call failed; with failures the record still mirrors the watcher, so a later fault-free iteration converges",
+                             "notify_multi_path_errors (string/notify::Error code) is a stand-in: one runtime error per path the notify error names, at least one; errors.send is an abstract channel that counts accepted errors",
+                             "`for` loops are desugared mechanically (R16) over a stand-in iterator yielding the Vec's elements in order; HashSet iteration order is arbitrary (vx_elems)"],
+                claim="fs::worker (whole function: outer loop, diff loops, unwatch/watch loops, error loops) proved by Verus against an abstract watcher: the worker's record always mirrors the active watcher, an empty configuration releases the watcher, after a fault-free iteration the registered map equals the configured set with its modes and kind, every failed call is reported once per named path and never ends the worker; unbounded",
+                trusted="stand-ins in prelude/fswatch_env.rs (abstract notify watcher, channels, configuration reads, HashSet, iterator)"),
     "C11": dict(units=["globset", "ignore"], level="proof",
                 assumptions=["glob matchers (ignore::gitignore::Gitignore built from --filter/--ignore patterns) are uninterpreted functions of (matcher, path, is_dir); num_ignores() > 0 is read as 'filter patterns configured'",
                              "the backing ignore-files filterer is C03's contract (uninterpreted verdict here)",
